@@ -37,9 +37,20 @@ def rec_case(draw, level="function"):
     else:
         pov = draw(st.sampled_from([0.5, 0.0, 0.25, 0.75])) if nx != 250 else draw(st.sampled_from([0.5, 0.0, 0.2]))
     nseg = draw(st.integers(4, 8))
-    return {"layout": lay, "nxseg": nx, "pov": pov, "method": draw(st.sampled_from(["per", "cor"])), "N": nx * nseg + draw(st.integers(0, nx // 2)),
-            "fs": draw(st.sampled_from([1.0, 100.0, 37.5])), "seed": draw(st.integers(0, 2**32 - 1)), "alg": draw(st.sampled_from(["FDD_MS", "EFDD_MS", "pLSCF_MS"])),
-            "gain": draw(st.sampled_from([1.0, 3.0, -0.2, 25.0])), "gsetup": draw(st.integers(0, 3))}
+    fs = draw(st.sampled_from([1.0, 100.0, 37.5, 50.0, 200.0]))
+    N = nx * nseg + draw(st.integers(0, nx // 2))
+    if draw(st.integers(0, 2)) == 0:
+        # a record that is a whole number of segments long; preferably one whose duration does not survive the
+        # samples -> seconds -> samples round trip in floating point (N*dt/dt < N)
+        dt = 1.0 / fs
+        cands = [nx * q for q in range(4, 13)]
+        frag = [n for n in cands if int((n * dt) / dt) < n]
+        N = frag[0] if frag else nx * nseg
+    return {"layout": lay, "nxseg": nx, "pov": pov, "method": draw(st.sampled_from(["per", "cor"])), "N": N,
+            "fs": fs, "seed": draw(st.integers(0, 2**32 - 1)), "alg": draw(st.sampled_from(["FDD_MS", "EFDD_MS", "pLSCF_MS"])),
+            "gain": draw(st.sampled_from([1.0, 3.0, -0.2, 25.0])), "gsetup": draw(st.integers(0, 3)),
+            "level": draw(st.sampled_from([1.0, 1.0, 1e-5, 1e4, 1e-9])),  # overall signal level (accelerations in g, strains, counts ...)
+            "pov2": draw(st.sampled_from([0.0, 0.5, 0.25])), "method2": draw(st.sampled_from(["per", "cor"]))}
 
 
 def _recording(case, ntot, independent=False):
@@ -50,7 +61,7 @@ def _recording(case, ntot, independent=False):
     mix = rng.normal(size=(ntot + 2, ntot)) * 0.6 + np.eye(ntot + 2, ntot)
     x = e @ mix
     y = x[8:] + 0.8 * x[7:-1] - 0.5 * x[5:-3] + 0.3 * x[:-8]
-    return y
+    return y * case.get("level", 1.0)
 
 
 def _tags(j, case):
@@ -58,6 +69,10 @@ def _tags(j, case):
     notlead = any(sorted(s["ref_ind"]) != list(range(lay["nref"])) or s["ref_ind"] != sorted(s["ref_ind"]) for s in lay["setups"])
     j.tag(case["method"], "pov=0.5" if case["pov"] == 0.5 else "pov!=0.5", "refs_moved" if notlead else "refs_leading")
     j.nontrivial(case["pov"] != 0.5 or case["method"] == "cor" or notlead)
+    if case.get("level", 1.0) != 1.0:
+        j.tag("level!=1")
+    if case["N"] % case["nxseg"] == 0:
+        j.tag("whole-segments", "duration-roundtrip-fragile" if int((case["N"] * (1.0 / case["fs"])) / (1.0 / case["fs"])) < case["N"] else "duration-roundtrip-exact")
 
 
 def _compare(j, tag, Sy, ref, cond):
@@ -141,6 +156,23 @@ def judge_class(case):
     j.check(f.shape == fr.shape and np.allclose(f, fr, rtol=1e-12, atol=0), "class-freq-grid", lambda: f"{f[:3]} vs {fr[:3]}")
     cond = np.array([np.linalg.cond(Sr[:k, :k, q]) for q in range(Sr.shape[2])])
     _compare(j, "class", Sy, Sr, cond)
+    # the user changes the overlap / estimator on the same algorithm object and runs it again
+    pov2, m2 = case.get("pov2"), case.get("method2")
+    if pov2 is None or (pov2 == case["pov"] and m2 == case["method"]) or case["nxseg"] in (65, 125, 250):
+        return j
+    alg.run_params.pov = pov2
+    alg.run_params.method_SD = m2
+    r = sut(ms.run_all)
+    if not j.check(not raised(r), "class-rerun-raises", lambda: f"{r!r}"):
+        return j
+    c2 = dict(case, pov=pov2, method=m2)
+    ref2 = _single(c2, y)
+    if raised(ref2):
+        raise RuntimeError(f"reference SD_est failed: {ref2!r}")
+    j.tag("rerun-changed-params")
+    Sr2 = np.asarray(ref2[1])
+    cond2 = np.array([np.linalg.cond(Sr2[:k, :k, q]) for q in range(Sr2.shape[2])])
+    _compare(j, "class-rerun", np.asarray(alg.result.Sy), Sr2, cond2)
     return j
 
 
